@@ -6,6 +6,8 @@ cd "$(dirname "$0")"
 export CARGO_NET_OFFLINE=true
 ( cd coq && coq_makefile -f _CoqProject -o Makefile >/dev/null && timeout 3000 make -j16 )
 ( cd modelrun && ocamlfind ocamlopt -package zarith -linkpkg -w -a model.mli model.ml driver.ml -o modelrun )
+( cd modelrun && [ -f driver_json.ml ] && ocamlfind ocamlopt -package zarith -linkpkg -w -a model_json.mli model_json.ml driver_json.ml -o modelrun_json || true )
+( cd modelrun && [ -f driver_text.ml ] && ocamlfind ocamlopt -package zarith -linkpkg -w -a model_text.mli model_text.ml driver_text.ml -o modelrun_text || true )
 cp -f /repo/Cargo.lock harness/Cargo.lock
 ( cd harness && RUSTFLAGS="--cfg pricelevel_verif" cargo build --offline && RUSTFLAGS="--cfg pricelevel_verif" cargo build --offline --release )
 echo setup ok
